@@ -281,4 +281,21 @@ Section Shape.
       + eapply rpcHandler_wellformed; exact E.
       + eapply rpcHandler_never_null; exact E.
   Qed.
+
+  (* the statements of Properties/C16.v: the handler returns, and what it returns meets the clause *)
+  Theorem rpcHandler_answers_never_null w body v :
+    exists rep w', rpcHandler w body v = Ok (rep, w') /\ never_null_reply F decode_txn parse_from body v rep.
+  Proof.
+    destruct (rpcHandler_returns W F sync_request call_nonce get_accounts sign decode_txn parse_from sched sched_perm w body v)
+      as [rep [w1 E]].
+    exists rep, w1. split; [exact E|]. eapply rpcHandler_never_null; exact E.
+  Qed.
+
+  Theorem rpcHandler_answers_wellformed w body v :
+    exists rep w', rpcHandler w body v = Ok (rep, w') /\ wellformed_reply body v rep.
+  Proof.
+    destruct (rpcHandler_returns W F sync_request call_nonce get_accounts sign decode_txn parse_from sched sched_perm w body v)
+      as [rep [w1 E]].
+    exists rep, w1. split; [exact E|]. eapply rpcHandler_wellformed; exact E.
+  Qed.
 End Shape.
